@@ -165,3 +165,48 @@ V("c12-preserving-copy-then-write", "C12", "silent",
    "    passive_block = np.copy(passive_block)\n    passive_block[0, 0] = passive_block[0, 0].conjugate()\n    _apply_passive_linear(state, passive_block, modes=modes)\n\n    return [Branch(state=state)]\n\n\ndef _apply_passive_linear("))
 V("c12-preserving-cxx-copy", "C12", "silent",
   ("piquasso/_math/torontonian.cpp", "    Matrix<TScalar> native_matrix = numpy_to_matrix(matrix);\n\n    TScalar result = torontonian_cpp(native_matrix);", "    Matrix<TScalar> native_matrix_shared = numpy_to_matrix(matrix);\n    Matrix<TScalar> native_matrix = native_matrix_shared.copy();\n\n    TScalar result = torontonian_cpp(native_matrix);"))
+
+# ------------------------------------------------------------------------------------------- C04
+V("c04-laplace-short-accumulator", "C04", {"rule": "C04b", "contains": "short"},
+  ("src/permanent_laplace.cpp", "        int binomial_coeff = 1;", "        short binomial_coeff = 1;"))
+V("c04-new-int-carrier", "C04", {"rule": "C04b", "contains": "weight_scale"},
+  ("src/permanent.cpp", "        char parity = (minus_signs_all % 2 == 0) ? 1 : -1;\n",
+   "        int weight_scale = 1;\n        weight_scale *= binomialCoeff<int64_t>(rows[1], gcode[0]);\n        char parity = (minus_signs_all % 2 == 0) ? 1 : -1;\n"))
+V("c04-preserving-widened", "C04", "silent",
+  ("src/permanent.cpp", "        int binomial_coeff = 1;", "        int64_t binomial_coeff = 1;"),
+  ("src/permanent.cpp", "binomialCoeff<int>(row_mult_current, minus_signs)", "binomialCoeff<int64_t>(row_mult_current, minus_signs)"))
+
+# ------------------------------------------------------------------------------------------- C18
+GATES = "piquasso/instructions/gates.py"
+PREPS = "piquasso/instructions/preparations.py"
+CONF = "piquasso/api/config.py"
+V("c18-bb-params-order-swapped", "C18", {"rule": "C18a", "contains": "Beamsplitter"},
+  (GATES, "            params=dict(\n                theta=theta,\n                phi=phi,\n            ),\n        )\n\n    def _get_passive_block(self, connector, config):",
+   "            params=dict(\n                phi=phi,\n                theta=theta,\n            ),\n        )\n\n    def _get_passive_block(self, connector, config):"))
+V("c18-bb-unknown-class", "C18", {"rule": "C18a", "contains": "Kgate"},
+  ("piquasso/core/_blackbird.py", "\"Kgate\": \"Kerr\"", "\"Kgate\": \"KerrGate\""))
+V("c18-param-key-renamed", "C18", {"rule": "C18b", "contains": "Kerr"},
+  (GATES, "        super().__init__(params=dict(xi=xi))\n\n\nclass SNAP", "        super().__init__(params=dict(kerr_xi=xi))\n\n\nclass SNAP"))
+V("c18-param-value-transformed", "C18", {"rule": "C18b", "contains": "Phaseshifter"},
+  (GATES, "        super().__init__(\n            params=dict(phi=phi),\n        )\n\n    def _get_passive_block(self, connector, config):\n        np = connector.np\n\n        phi = self._params[\"phi\"]\n\n        return np.array([[np.exp(1j * phi)]]",
+   "        super().__init__(\n            params=dict(phi=phi % 6.283185307179586),\n        )\n\n    def _get_passive_block(self, connector, config):\n        np = connector.np\n\n        phi = self._params[\"phi\"]\n\n        return np.array([[np.exp(1j * phi)]]"))
+V("c18-config-eq-misses-field", "C18", {"rule": "C18c", "contains": "use_dask"},
+  (CONF, "            and self.use_dask == other.use_dask\n", ""))
+V("c18-config-ascode-misses-field", "C18", {"rule": "C18c", "contains": "measurement_cutoff"},
+  (CONF, "        if self.measurement_cutoff != default_config.measurement_cutoff:\n            non_default_params[\"measurement_cutoff\"] = self.measurement_cutoff\n", ""))
+V("c18-config-ascode-wrong-source", "C18", {"rule": "C18c", "contains": "seed_sequence"},
+  (CONF, "            non_default_params[\"seed_sequence\"] = self._original_seed_sequence", "            non_default_params[\"seed_sequence\"] = self.cache_size"))
+V("c18-pq-name-unbound", "C18", {"rule": "C18d", "contains": "CubicPhase"},
+  ("piquasso/__init__.py", "    Graph,\n    CubicPhase,\n)", "    Graph,\n)"))
+V("c18-add-drops-self-coefficient", "C18", {"rule": "C18f", "contains": "self.coefficient"},
+  (PREPS, "                fock_amplitude_map = {\n                    self.params[\"occupation_numbers\"]: self.params[\"coefficient\"],\n                    **other_amplitude_map,\n                }",
+   "                fock_amplitude_map = {\n                    self.params[\"occupation_numbers\"]: 1.0,\n                    **other_amplitude_map,\n                }"))
+V("c18-fsv-add-drops-other-coefficient", "C18", {"rule": "C18f", "contains": "other.coefficient"},
+  (PREPS, "                coefficient *= other.params[\"coefficient\"]\n", ""))
+V("c18-ndarray-str", "C18", {"rule": "C18e", "contains": "ndarray"},
+  (INSTR, "            return \"np.\" + repr(value)", "            return \"np.array(\" + str(value.tolist()) + \")\" if value.size < 4 else f\"np.{value!r}\" + str(value)[:0]"))
+V("c18-preserving-tolist", "C18", "silent",
+  (INSTR, "            return \"np.\" + repr(value)", "            return \"np.array(\" + repr(value.tolist()) + \")\""))
+V("c18-preserving-new-instruction", "C18", "silent",
+  (GATES, "class Kerr(Gate):", "class Kerr2(Gate):\n    NUMBER_OF_MODES = 1\n\n    def __init__(self, xi: float, order: int = 2) -> None:\n        super().__init__(params=dict(xi=xi, order=order))\n\n\nclass Kerr(Gate):"),
+  ("piquasso/__init__.py", "    Kerr,\n    CrossKerr,", "    Kerr,\n    Kerr2,\n    CrossKerr,"))
